@@ -1,5 +1,5 @@
 (* Run from build/ocaml (extraction writes into the current directory). ExtrOcamlBasic only. *)
 From Coq Require Import Extraction ExtrOcamlBasic.
-From RML Require Import Model.Base Model.Time.
+From RML Require Import Model.Base Model.Time Model.Utf8 Model.Amf0 Spec.Amf0Spec.
 Extraction Blacklist String List Int.
-Separate Extraction Model.Time.
+Separate Extraction Model.Time Model.Amf0 Spec.Amf0Spec.
